@@ -3,7 +3,7 @@
    interleaving transition system ([init true] = v1, [init false] = v2); [run (init e) l] ranges
    over every schedule of plugin answers, store flushes, engine steps and the instant of the stop. *)
 From Verif Require Import Stop.Stop Stop.StopProofs.
-From Verif Require Stop.Events Stop.Check Stop.CheckProofs Stop.GenStop Stop.GenStopProofs.
+From Verif Require Stop.Events Stop.Check Stop.CheckProofs Stop.GenStop Stop.GenStopProofs Stop.GenStopSim.
 
 Theorem C06_graceful_stop_drains_v1 : forall l s, run (init true) l = Some s -> ret_ok s = true ->
   pack s = stored s /\ stored s = eack s /\ eack s = handled s /\ handled s = taken s /\
@@ -72,6 +72,27 @@ Theorem C06_gen_return_guard : forall e m s s', GenStopProofs.greach e m s ->
                      nth i (GenStop.wc s') 0 = taken (GenStop.base s').
 Proof. exact GenStopProofs.gen_return_guard. Qed.
 Print Assumptions C06_gen_return_guard.
+
+(* (i), the simulation (GenStopSim.v): every trace the generative model emits - any schedule, any number
+   of destinations, both engines - is accepted by the acceptor the observed logs are judged with ... *)
+Theorem C06_gen_trace_accepted : forall e m l s, GenStop.grun (GenStop.ginit e m) l = Some s ->
+  Check.accept (GenStopSim.cfgof e m) (GenStop.trace s) = true.
+Proof. exact GenStopSim.gen_trace_accepted. Qed.
+Print Assumptions C06_gen_trace_accepted.
+
+(* ... so, composing (i) and (ii): every trace of the generative model satisfies the log clauses of
+   Mon_C06 (healthy = false: "the stop comes back" is liveness and is judged on observed runs) *)
+Theorem C06_gen_trace_satisfies_mon : forall e m l s, GenStop.grun (GenStop.ginit e m) l = Some s ->
+  Check.mon_c06 (GenStopSim.cfgof e m) false false (GenStop.trace s) = true.
+Proof. exact GenStopSim.gen_trace_satisfies_mon_c06. Qed.
+Print Assumptions C06_gen_trace_satisfies_mon.
+
+Theorem C06_gen_trace_return_drained : forall e m l s pre snap rest,
+  GenStop.grun (GenStop.ginit e m) l = Some s ->
+  Check.split_at_ret (GenStop.trace s) [] = Some (pre, Events.RNil, snap, rest) ->
+  Check.drained e false 1 snap (Check.track (GenStopSim.cfgof e m) pre) = true.
+Proof. exact GenStopSim.gen_trace_return_drained. Qed.
+Print Assumptions C06_gen_trace_return_drained.
 
 (* tests, not theorems: traces of the generative model run through the executable acceptor and monitor *)
 Example C06_gen_trace_accepted_v1 :
